@@ -7,7 +7,7 @@ from vf import gen, probes
 
 PID = "C17"
 ANCHORS = ["pyoma2.functions.ssi:build_hank", "pyoma2.functions.ssi:SSI_fast", "pyoma2.functions.ssi:SSI_poles", "pyoma2.functions.ssi:ac2mp", "pyoma2.algorithms.ssi:SSIdat.run"]
-REQUIRED_MONITORS = ["delta-method@SSI_fast+SSI_poles(synthetic factor)", "delta-method@SSI_fast+SSI_poles(factor from data)", "factor-definition@build_hank",
+REQUIRED_MONITORS = ["second evaluation from the same auxiliary matrices", "delta-method@SSI_fast+SSI_poles(synthetic factor)", "delta-method@SSI_fast+SSI_poles(factor from data)", "factor-definition@build_hank",
                      "class-uses-the-same-propagation@SSIcov(calc_unc)"]
 ALL_STATES = ["single column factor", "multi column factor", "order < ordmax", "order = ordmax", "l=1", "l=3", "ref subset", "br=2", "br=5"]
 REQUIRED_STATES = ["single column factor", "multi column factor", "order < ordmax", "order = ordmax", "ref subset"]
@@ -71,7 +71,13 @@ def judge_orders(ctx, tag, ssi, H, br, ordmax, dt, T, orders, sig):
         ctx.not_judged("relative singular-value gap < 1e-3")
         return
     Obs, A, C, Q1, Q2, Q3, Q4 = ssi.SSI_fast(H, br, ordmax, calc_unc=True, T=T, nb=nb)
+    Qkeep = [np.array(q, copy=True) for q in (Q1, Q2, Q3, Q4)]
     Fn, Xi, Phi, Lam, Fc, Xc, Pc = ssi.SSI_poles(Obs, A, C, ordmax, dt, calc_unc=True, Q1=Q1, Q2=Q2, Q3=Q3, Q4=Q4)
+    ctx.ev("second evaluation from the same auxiliary matrices")
+    same_q = all(np.array_equal(a, b) for a, b in zip(Qkeep, (Q1, Q2, Q3, Q4)))
+    Fc2 = ssi.SSI_poles(Obs, A, C, ordmax, dt, calc_unc=True, Q1=Q1, Q2=Q2, Q3=Q3, Q4=Q4)[4]
+    ctx.check(same_q and np.array_equal(Fc, Fc2, equal_nan=True), f"{sig}:pole_step_modifies_its_inputs",
+              f"{tag}: SSI_poles changed the auxiliary matrices it was given / a second evaluation from them reports other variances")
     dHs = [T[:, k].reshape(H.shape, order="F") for k in range(nb)]
     for order in orders:
         f0, l0 = ident(ssi, H, br, order, ordmax, dt)
